@@ -215,16 +215,17 @@ Definition truthy (v : jvalue) : bool :=
 (* ---------- regular-expression recognisers ---------- *)
 
 (* r"^([a-fA-F0-9]{2})+$"  (HexProperty) *)
-Definition re_hex_pairs (s : ustring) : bool :=
-  let t := strip_final_newline s in
-  let ok (x : ustring) := forallb is_hexdigit x && negb (Nat.eqb (List.length x) 0) && Nat.even (List.length x) in
-  ok s || ok t.
+(* every recogniser with a final `$` takes z: true = the pattern ends in \Z (repaired variant) *)
+Definition dollar (z : bool) (ok : ustring -> bool) (s : ustring) : bool :=
+  ok s || (negb z && ok (strip_final_newline s)).
+
+Definition re_hex_pairs (z : bool) (s : ustring) : bool :=
+  dollar z (fun x => forallb is_hexdigit x && negb (Nat.eqb (List.length x) 0) && Nat.even (List.length x)) s.
 
 (* r"^[a-zA-Z0-9_-]+$"  (dictionary keys) *)
 Definition is_keychar (c : N) := is_digit c || is_lower c || is_upper c || (c =? 95) || (c =? 45).
-Definition re_dict_key (s : ustring) : bool :=
-  let ok (x : ustring) := forallb is_keychar x && negb (Nat.eqb (List.length x) 0) in
-  ok s || ok (strip_final_newline s).
+Definition re_dict_key (z : bool) (s : ustring) : bool :=
+  dollar z (fun x => forallb is_keychar x && negb (Nat.eqb (List.length x) 0)) s.
 
 (* r'^[a-z].*'  (PREFIX_21_REGEX; `.` does not match a newline but the match need not reach the end) *)
 Definition re_prefix21 (s : ustring) : bool :=
@@ -254,11 +255,17 @@ Definition re_selector_exact (s : ustring) : bool :=
   | [] => false
   end.
 (* \d in Python 3 str patterns also matches non-ASCII decimal digits: ASCII-only model *)
-Definition re_selector (s : ustring) : bool := re_selector_exact s || re_selector_exact (strip_final_newline s).
+Definition re_selector (z : bool) (s : ustring) : bool := dollar z re_selector_exact s.
 
 (* ---------- uuid.UUID(text) ---------- *)
 (* hex = text.replace('urn:','').replace('uuid:',''); hex = hex.strip('{}').replace('-','');
    len(hex) == 32; int(hex, 16); 0 <= int < 2^128                                          *)
+Definition canonical_uuid_text (s : ustring) : bool :=
+  Nat.eqb (List.length s) 36 &&
+  forallb (fun ic => let '(i, c) := ic in
+                     if Nat.eqb i 8 || Nat.eqb i 13 || Nat.eqb i 18 || Nat.eqb i 23 then c =? 45 else is_hexdigit c)
+          (combine (seq 0 36) s).
+
 Definition py_uuid_int (s : ustring) : result Z :=
   let n := List.length s in
   let h1 := uremove_all (S n) (u "uuid:") (uremove_all (S n) (u "urn:") s) in
@@ -272,27 +279,22 @@ Definition uuid_variant_rfc4122 (v : Z) : bool :=
 Definition uuid_version (v : Z) : Z := Z.land (Z.shiftr v 76) 15.
 
 (* ID_REGEX_interoperability (re.match: anchored at the start only, `$` at the end) *)
-Definition re_interop_uuid (s : ustring) : bool :=
-  let ok (x : ustring) :=
-    Nat.eqb (List.length x) 36 &&
-    forallb (fun ic => let '(i, c) := ic in
-                       if Nat.eqb i 8 || Nat.eqb i 13 || Nat.eqb i 18 || Nat.eqb i 23 then c =? 45 else is_hexdigit c)
-            (combine (seq 0 36) x) in
-  ok s || ok (strip_final_newline s).
+Definition re_interop_uuid (z : bool) (s : ustring) : bool := dollar z canonical_uuid_text s.
 
 (* _check_uuid *)
-Definition check_uuid (s : ustring) (v : ver) (interop : bool) : result bool :=
-  if interop then Ok (re_interop_uuid s) else
+Definition check_uuid (vr : variant) (s : ustring) (v : ver) (interop : bool) : result bool :=
+  if interop then Ok (re_interop_uuid (vr_interop_z vr) s) else
   do i <- py_uuid_int s;
+  if vr_uuid_canon vr && negb (canonical_uuid_text s) then Ok false else
   let ok := uuid_variant_rfc4122 i in
   Ok (match v with V20 => ok && (uuid_version i =? 4)%Z | V21 => ok end).
 
 (* _validate_id: Ok tt or ValueError *)
-Definition validate_id (id : ustring) (v : ver) (prefix : option ustring) (interop : bool) : result unit :=
+Definition validate_id (vr : variant) (id : ustring) (v : ver) (prefix : option ustring) (interop : bool) : result unit :=
   match prefix with
   | Some p =>
     if negb (ustr_prefix p id) then Err EValueError else
-    match check_uuid (udrop (List.length p) id) v interop with
+    match check_uuid vr (udrop (List.length p) id) v interop with
     | Ok true => Ok tt
     | Unmodelled => Unmodelled
     | _ => Err EValueError
@@ -300,7 +302,7 @@ Definition validate_id (id : ustring) (v : ver) (prefix : option ustring) (inter
   | None =>
     match split_dashdash id with
     | (_, Some rest) =>
-      match check_uuid rest v interop with
+      match check_uuid vr rest v interop with
       | Ok true => Ok tt
       | Unmodelled => Unmodelled
       | _ => Err EValueError
@@ -309,12 +311,6 @@ Definition validate_id (id : ustring) (v : ver) (prefix : option ustring) (inter
     end
   end.
 
-(* canonical UUID text: 8-4-4-4-12 hexadecimal digits (what the specification means by a UUID) *)
-Definition canonical_uuid_text (s : ustring) : bool :=
-  Nat.eqb (List.length s) 36 &&
-  forallb (fun ic => let '(i, c) := ic in
-                     if Nat.eqb i 8 || Nat.eqb i 13 || Nat.eqb i 18 || Nat.eqb i 23 then c =? 45 else is_hexdigit c)
-          (combine (seq 0 36) s).
 
 (* ---------- hashes (stix2/hashes.py) ---------- *)
 Definition hash_enum_names : list ustring :=
@@ -326,9 +322,8 @@ Definition infer_hash (name : ustring) : option ustring :=
   let e := uupper (uremove_all (S (List.length name)) [45] name) in
   if mem_ustr e hash_enum_names then Some e else None.
 
-Definition hexlen_ok (lens : list nat) (s : ustring) : bool :=
-  let ok (x : ustring) := forallb is_hexdigit x && existsb (Nat.eqb (List.length x)) lens in
-  ok s || ok (strip_final_newline s).
+Definition hexlen_ok (z : bool) (lens : list nat) (s : ustring) : bool :=
+  dollar z (fun x => forallb is_hexdigit x && existsb (Nat.eqb (List.length x)) lens) s.
 
 Definition is_ssdeep_char (c : N) :=
   is_digit c || is_lower c || is_upper c || (c =? 47) || (c =? 43) || (c =? 58) || (c =? 46).
@@ -338,7 +333,8 @@ Definition is_ssdeep_char (c : N) :=
    start, so any text beginning with 32 hex digits matches.                   *)
 Definition algis (alg : ustring) (n : string) : bool := ustr_eqb alg (u n).
 Arguments algis _ _%string.
-Definition check_hash (alg : ustring) (v : ustring) : bool :=
+Definition check_hash (z : bool) (alg : ustring) (v : ustring) : bool :=
+  let hexlen_ok := hexlen_ok z in
   if algis alg "MD5" then hexlen_ok [32%nat] v
   else if algis alg "MD6" then forallb is_hexdigit (utake 32 v) && Nat.leb 32 (List.length v)
   else if algis alg "RIPEMD160" || algis alg "SHA1" then hexlen_ok [40%nat] v
@@ -348,8 +344,7 @@ Definition check_hash (alg : ustring) (v : ustring) : bool :=
   else if algis alg "SHA512" || algis alg "SHA3512" || algis alg "WHIRLPOOL" then hexlen_ok [128%nat] v
   else if algis alg "TLSH" then hexlen_ok [70%nat] v
   else if algis alg "SSDEEP" then
-    let ok (x : ustring) := forallb is_ssdeep_char x && Nat.leb 1 (List.length x) && Nat.leb (List.length x) 128 in
-    ok v || ok (strip_final_newline v)
+    dollar z (fun x => forallb is_ssdeep_char x && Nat.leb 1 (List.length x) && Nat.leb (List.length x) 128) v
   else true.
 
 (* ---------- timestamps: strict reader, writer per precision ---------- *)
